@@ -619,21 +619,34 @@ nfa, with no epsilon transition
         symbols = list(self.symbols.intersection(other.symbols))
         to_process = []
         processed = set()
+        names = {}
+        used = set()
+
+        def combine(st0, st1):
+            # distinct pairs get distinct names, whatever their values
+            if (st0, st1) not in names:
+                state = combine_state_pair(st0, st1)
+                while state in used:
+                    state = State(str(state.value) + "'")
+                used.add(state)
+                names[(st0, st1)] = state
+            return names[(st0, st1)]
+
         for st0 in self.eclose_iterable(self.start_states):
             for st1 in other.eclose_iterable(other.start_states):
-                enfa.add_start_state(combine_state_pair(st0, st1))
+                enfa.add_start_state(combine(st0, st1))
                 to_process.append((st0, st1))
                 processed.add((st0, st1))
         for st0 in self.final_states:
             for st1 in other.final_states:
-                enfa.add_final_state(combine_state_pair(st0, st1))
+                enfa.add_final_state(combine(st0, st1))
         while to_process:
             st0, st1 = to_process.pop()
-            current_state = combine_state_pair(st0, st1)
+            current_state = combine(st0, st1)
             for symb in symbols:
                 for new_s0 in self.eclose_iterable(self(st0, symb)):
                     for new_s1 in other.eclose_iterable(other(st1, symb)):
-                        state = combine_state_pair(new_s0, new_s1)
+                        state = combine(new_s0, new_s1)
                         enfa.add_transition(current_state, symb, state)
                         if (new_s0, new_s1) not in processed:
                             processed.add((new_s0, new_s1))
